@@ -45,21 +45,20 @@ type sut struct {
 	chHead  chan core.ChainHeadEvent
 	subs    []event.Subscription
 
-	cur                *snapshotState
-	touched            []*mblock
-	failed             bool
-	reportedNoReceipts map[common.Hash]bool
-	sampleX            uint64
-	oplog              []string
-	restarted          bool // a restart happened in this case (signature)
-	quiescent          bool
-	tailBound          uint64
-	stopReader         func()
+	cur                      *snapshotState
+	touched                  []*mblock
+	failed                   bool
+	importedUnderHeaderChain bool
+	lastKind                 string
+	prev                     *snapshotState
+	reportedNoReceipts       map[common.Hash]bool
+	sampleX                  uint64
+	oplog                    []string
+	restarted                bool // a restart happened in this case (signature)
+	quiescent                bool
+	tailBound                uint64
+	stopReader               func()
 }
-
-// strictKnownReimport: report InsertChain making already-known blocks canonical without
-// announcing their logs (see judge) as a violation.
-var strictKnownReimport = os.Getenv("C38_LENIENT_KNOWN") == ""
 
 type events struct {
 	removed []*types.Log
@@ -80,7 +79,7 @@ func (s *sut) witness(extra map[string]any) map[string]any {
 func (s *sut) viol(fp, msg string, extra map[string]any) {
 	// After a violation that leaves the database in an inconsistent state the rest of the case
 	// would only report consequences of it: the case stops (pure event omissions excepted).
-	if fp != "I4:known-block-reimport:added-logs-not-emitted" {
+	if fp != "I4:known-block-reimport:added-logs-not-emitted" { // F1 leaves the database consistent
 		s.failed = true
 	}
 	s.r.Violation(fp, fmt.Sprintf("case %d (%s) after op %q: %s", s.idx, s.desc, s.lastOp(), msg), s.witness(extra))
@@ -193,10 +192,10 @@ func (s *sut) startReader(seed int64) {
 
 func run(r *vrt.Run) {
 	r.Rule("case = random block tree (trunk + forks from random fork points incl. forks of forks and equal-height competitors, 0-6 log-emitting / reverting / plain transactions per block, competing blocks sharing transactions) x chain config (state scheme hash|path, snapshots, archive, pre|post-merge, tx lookup limit 0|8|40) x random operation sequence (InsertChain of tree segments in order / with known prefix / gapped / shuffled, SetCanonical, SetHead, SetFinalized+Freeze, restart); every operation is one evaluation; non-trivial signature = (op kind, outcome class, reorg drop-depth bucket, add-depth bucket, equal height, scheme, merged, after restart)")
-	nCases := r.N(40, 6000)
+	nCases := r.N(40, 2500)
 	nOps := r.N(15, 25)
 	if r.Race() {
-		nCases = r.N(5, 300)
+		nCases = r.N(5, 150)
 	}
 	only := -1
 	if v := os.Getenv("VERIF_ONLY"); v != "" {
@@ -211,13 +210,19 @@ func run(r *vrt.Run) {
 	} else {
 		vrt.Par(nCases, workers, func(i int) { runCase(r, i, nOps) })
 	}
-	r.Require("ops_insert_reorg", 20)
-	r.Require("ops_setcanonical_reorg", 10)
-	r.Require("ops_sethead_rewind", 10)
-	r.Require("ops_restart", 10)
-	r.Require("removed_logs_compared", 100)
-	r.Require("lookups_checked", 1000)
-	r.Require("index_quiescent_steps", 100)
+	if only < 0 {
+		q := int64(1)
+		if r.Race() {
+			q = 5 // the race variant runs an eighth of the cases
+		}
+		r.Require("ops_insert_reorg", 20/q)
+		r.Require("ops_setcanonical_reorg", 10/q)
+		r.Require("ops_sethead_rewind", 10/q)
+		r.Require("ops_restart", 10/q)
+		r.Require("removed_logs_compared", 100/q)
+		r.Require("lookups_checked", 1000/q)
+		r.Require("index_quiescent_steps", 100/q)
+	}
 	r.Assume("block tree, receipts and logs of the model come from core.GenerateChain (chain maker + state transition), which shares no code with BlockChain's index, reorg, rewind and event logic; import re-validates every block against it")
 	r.Assume("SetHead is judged only for index/marker/state consistency and its ChainHeadEvent (it emits no removed-log events by design); removed logs are expected in ascending block order as documented in core/blockchain.go:reorg")
 }
